@@ -350,11 +350,11 @@ Theorem C06_push_ok_indexed_file : forall fx ig ov s d c h2,
 Proof. exact file_push_ok_indexed. Qed.
 Print Assumptions C06_push_ok_indexed_file.
 
-Example C06_ex_file_graph_wf : Forall (wfB_op fg_B) fg_hist /\ Forall no_alias fg_hist.
-Proof. exact fg_wf. Qed.
+Example C06_ex_file_graph_wf : Forall (wfB_op fgx_B) fgx_hist /\ Forall no_alias fgx_hist.
+Proof. exact fgx_wf. Qed.
 Example C06_ex_file_graph_run :
-  snd (runf (file_step true false false) file_init fg_hist) = [FO OOk; FO OOk; FO (OPreds [(1, 9, 20)])].
-Proof. exact fg_run. Qed.
+  snd (runf (file_step true false false) file_init fgx_hist) = [FO OOk; FO OOk; FO (OPreds [(1, 9, 20)])].
+Proof. exact fgx_run. Qed.
 
 (* Resolve returns the descriptor most recently tagged *)
 Theorem C06_resolve_latest_file : forall fx ig ov s d r h2,
